@@ -230,6 +230,15 @@ def settle(r, requests, expect, stream):
                 r.disagree(stream, case, f"{what}: {a[:300]}", b[:300])
             continue
         rep = next(replies)
+        if e[0] == "check-known":
+            _, keys, real_q, q, case = e
+            f = dict(p.split("=", 1) for p in rep.split(" ") if "=" in p)
+            if f.get("q") is None or untok(f["q"]) != real_q:
+                bad += 1
+                r.disagree(stream, case, f"real query {q} -> {real_q!r}", f"model query -> {f.get('q')}")
+            elif f.get("vis") != f.get("visL"):
+                r.tag("corpus:tree-level-wrong-answer-reproduced (real == model != list; not a sweep)")
+            continue
         if e[0] == "reply":
             _, what, want, _, case = e
             if rep.startswith("err") or rep.startswith("bad") or canon(rep) != canon(want):
@@ -944,6 +953,27 @@ def run_corpus(r):
     for body in r.corpus():
         c = body.get("case", body)
         r.case(case_key(c), nontrivial=True, tags=["corpus"])
+        if "ops" in c:
+            # a tree-level sequence (not a sweep): the model must reproduce the real arrays step by step and the
+            # real query result; that the real answer differs from the list answer here is the recorded finding
+            ops = []
+            for o in c["ops"]:
+                if o[0] == "ins":
+                    v = float(c["vals"][o[1] - 1])
+                    ops.append(("ins", [float(o[1]), v, v, v, 0.0, 1.0, 2.0]))
+                else:
+                    ops.append(("del", float(o[1])))
+            rt = RealTree(len(ops) + 8)
+            keys = []
+            for idx, op in enumerate(ops):
+                k, _ = apply_op(rt, op, requests, expect, dict(stream="tree-corpus-ops", at=idx))
+                nrot += k
+                keys = sorted(keys + [op[1][0]]) if op[0] == "ins" else [x for x in keys if x != op[1]]
+            qk, qa, qg = (float(x) for x in c["query"])
+            real_q = float(V()._max_grad_in_status_struct(rt.tv, rt.tn, rt.root, qk, qa, qg))
+            requests.append(f"vs_check tree={rt.ser()} qk={tok(qk)} qa={tok(qa)} qg={tok(qg)}")
+            expect.append(("check-known", keys, real_q, (qk, qa, qg), dict(stream="tree-corpus-ops")))
+            continue
         try:
             why, det = oracle_terrain(c)
         except Exception as ex:
@@ -980,11 +1010,11 @@ def run(r):
                       "`Inv holds in every reachable state` is checked on the generated runs, not proved for deletion (see design_notes/C05.md)"]
     quick = r.tier == "quick"
     run_corpus(r)
-    seam1(r, n_seq=10 if quick else 60, nops=120, pool=40)
-    seam123(r, n_terr=60 if quick else 400, maxs=9 if quick else 15, tree_level_every=6 if quick else 10)
+    seam1(r, n_seq=10 if quick else 120, nops=120, pool=40)
+    seam123(r, n_terr=60 if quick else 1000, maxs=9 if quick else 15, tree_level_every=6 if quick else 10)
     if not quick:
-        seam123(r, n_terr=12, maxs=30, tree_level_every=100)
-    n = fast_search(r, 20 if quick else 240, 10 if quick else 16)
+        seam123(r, n_terr=20, maxs=30, tree_level_every=100)
+    n = fast_search(r, 20 if quick else 420, 10 if quick else 16)
     r.tag("fast-reference-terrains", n)
 
 
@@ -1014,6 +1044,9 @@ def replay(r, body):
     c = body["case"]
     if isinstance(c, dict) and "terrain" in c:
         c = c["terrain"]
+    if isinstance(c, dict) and "ops" in c:
+        print("tree-level operation sequence (not an input of viewshed()): replayed by ./check C05 in the corpus step")
+        return 0
     why = safe_oracle(c)
     if why:
         print("still fails:", why)
